@@ -29,7 +29,9 @@ def load_known(root):
 
 def match_known(known, pid, v):
     for k in known:
-        if k.get("status") == "known" and k.get("property") == pid and k.get("signature") == v.get("signature"):
+        if k.get("status") != "known" or k.get("property") != pid:
+            continue
+        if k.get("signature") == v.get("signature") or v.get("signature") in k.get("signatures", []):
             return k
     return None
 
@@ -105,6 +107,55 @@ def seq_property(note=None, extra_assumptions=()):
     return f
 
 
+# ---------------------------------------------------------------------- E-TYPE
+
+def run_typematrix(ctx_root, env):
+    exe = os.path.join(ctx_root, "target", "release", "typematrix")
+    p = subprocess.run([exe], cwd=ctx_root, env=env, stdout=subprocess.PIPE, stderr=subprocess.PIPE, text=True, timeout=120)
+    if p.returncode != 0:
+        return None, p.stderr
+    return p.stdout, ""
+
+
+def type_property(ctx, pid):
+    import typerules
+    t0 = time.time()
+    out, err = run_typematrix(ctx.root, ctx.env)
+    if out is None:
+        ctx.machinery("typematrix failed: " + err[-2000:])
+    cells, pairs = typerules.parse(out)
+    if len(cells) < 400 or len(pairs) < 300:
+        ctx.machinery("typematrix printed only %d cells / %d pairs" % (len(cells), len(pairs)))
+    viol, info, verdict_cells, applied = typerules.evaluate(cells, pairs)
+    with open(os.path.join(ctx.out, "C16.matrix.txt"), "w") as f:
+        f.write(out)
+    viols = []
+    for v in viol:
+        viols.append({"engine": "E-TYPE", "property": pid, "signature": v["signature"], "message": v["message"], "summary": v["message"] + " [" + v["signature"] + "]"})
+    n_true = sum(1 for c in cells for k in ("send", "sync", "unpin") if c[k])
+    cov = {
+        "explanation": "Exhaustive enumeration of the abstract type-configuration space: for every public primitive / future / guard / releaser / handle / stream type constructor and every combination of witness parameters (lock class x payload class x buffer class, one witness per (Send,Sync) class) one program compiled against the current /repo evaluates Send, Sync and Unpin; additionally for every method that returns a borrowing or Arc-sharing future/guard/stream the pair (result: Send, receiver: Sync|Send). The rule table lib/typerules.py (must-be-false / must-be-true / borrowing implication) is evaluated on every cell. The evaluator of a cell is the Rust trait solver, not an execution: this is the edge of the model-checking family (exhaustive finite enumeration with a mechanical oracle), labelled 'other' for that reason.",
+        "evaluations": 3 * len(cells) + len(pairs),
+        "distinct_nontrivial": verdict_cells,
+        "rule": "one cell per (type constructor, lock witness, payload witness, buffer witness, trait); verdict cells are those whose lock witness is NoopLock (local flavour) or parking_lot::RawMutex (thread-safe flavour); cells with the synthetic (Send,!Sync)/(!Send,Sync) lock witnesses are computed and reported as informational only",
+        "type_cells": len(cells),
+        "method_pairs": len(pairs),
+        "rule_applications": applied,
+        "facts_true": n_true,
+        "informational_cells_flagged": [i["signature"] for i in info],
+        "exhaustive": True,
+        "samples": [dict(c) for c in cells[40:44]] + [dict(p) for p in pairs[100:103]],
+        "summary": "cells=%d pairs=%d verdict_cells=%d rule_applications=%d" % (len(cells), len(pairs), verdict_cells, applied),
+        "wall_typematrix_s": round(time.time() - t0, 2),
+    }
+    ev = {"level": "other", "coverage": cov, "assumptions": [
+        "every hand-written Send/Sync impl of the crate is parametric with marker-trait bounds only, so the verdict for any instantiation depends only on the (Send,Sync) class of each parameter (checked by reading the impls; a specialised impl for a concrete type would escape the matrix)",
+        "the witness types are representative of their class: i32 (Send+Sync), Cell<i32> (Send), Rc<i32> (neither), a PhantomData<*mut ()> newtype with unsafe Sync (!Send+Sync); RcBuf is a safe custom RingBuf holding an Rc",
+        "rule table lib/typerules.py is the oracle and is trusted; rustc's trait solver is trusted",
+    ]}
+    return ev, viols
+
+
 def do_replay(root, env, path, run_engine):
     with open(path) as f:
         doc = json.load(f)
@@ -113,12 +164,43 @@ def do_replay(root, env, path, run_engine):
         exe = os.path.join(root, "target", "release", "fiverif")
         p = subprocess.run([exe, "replay", "--file", path], cwd=root, env=env)
         return p.returncode
+    if eng == "E-TYPE":
+        import typerules
+        out, err = run_typematrix(root, env)
+        if out is None:
+            print("typematrix failed: " + err)
+            return 2
+        cells, pairs = typerules.parse(out)
+        viol, _, _, _ = typerules.evaluate(cells, pairs)
+        hit = [v for v in viol if v["signature"] == doc["signature"]]
+        for v in hit:
+            print("VIOLATION reproduced: " + v["message"])
+        if not hit:
+            print("replay: cell %s no longer violates the rule table" % doc["signature"])
+        return 1 if hit else 0
     print("replay of engine %s artefacts: see DESIGN.md" % eng)
     return 2
 
 
 PROPS = {
+    "C01": seq_property(),
+    "C02": seq_property(),
+    "C03": seq_property(),
+    "C04": seq_property(),
     "C05": seq_property(),
     "C06": seq_property(),
     "C07": seq_property(),
+    "C08": seq_property(),
+    "C09": seq_property(),
+    "C10": seq_property(),
+    "C11": seq_property(),
+    "C12": seq_property(),
+    "C13": seq_property(),
+    "C14": seq_property(),
+    "C15": seq_property(),
+    "C16": type_property,
+    "C17": seq_property(),
+    "C18": seq_property(),
+    "C19": seq_property(),
+    "C20": seq_property(),
 }
